@@ -1218,10 +1218,19 @@ fn churn(st: &mut SeqStats, fl: Flavour, fut: bool, cycles: usize, early_drop: b
         if fut { "-fut" } else { "" },
         if burst > 1 { "|bursts" } else { "" },
         if primed { "|cycle-in-flight-at-start" } else { "" },
-        ["clone-recv", "add-stream", "clone-sender", "single-multi", "clone-sender-after-receivers-left"][kind],
+        [
+            "clone-recv",
+            "add-stream",
+            "clone-sender",
+            "single-multi",
+            "clone-sender-after-receivers-left",
+            "add-stream-from-a-handle-that-does-nothing-else",
+            "clone-recv-from-a-handle-that-does-nothing-else",
+            "clone-sender-from-a-handle-that-does-nothing-else",
+        ][kind],
         early_drop
     );
-    if kind == 1 && fl == Flavour::M {
+    if (kind == 1 || kind == 5) && fl == Flavour::M {
         return;
     }
     rt::exec_begin();
@@ -1251,6 +1260,15 @@ fn churn(st: &mut SeqStats, fl: Flavour, fut: bool, cycles: usize, early_drop: b
         // a non-last handle of the stream is dropped early
         run(opd(CloneH, 1, 5));
         run(op(DropH, 5));
+    }
+    // kinds 5..7: the cycles are performed by a handle of its own that is never
+    // used for anything else (a prototype kept for subscribing / cloning), the
+    // fixed handles send and receive as usual
+    if kind == 5 || kind == 6 {
+        run(opd(CloneH, 1, 6));
+    }
+    if kind == 7 {
+        run(opd(CloneH, 0, 3));
     }
     if primed {
         // 24 retirements without any fixed handle operating in between: a
@@ -1285,6 +1303,18 @@ fn churn(st: &mut SeqStats, fl: Flavour, fut: bool, cycles: usize, early_drop: b
             }
             2 | 4 => {
                 run(opd(CloneH, 0, 2));
+                run(op(DropH, 2));
+            }
+            5 => {
+                run(opd(AddStream, 6, 4));
+                run(op(DropH, 4));
+            }
+            6 => {
+                run(opd(CloneH, 6, 4));
+                run(op(DropH, 4));
+            }
+            7 => {
+                run(opd(CloneH, 3, 2));
                 run(op(DropH, 2));
             }
             _ => {
@@ -1972,7 +2002,7 @@ pub fn main(prop: &str, tier: Tier, si: usize, sk: usize) {
             for fut in [false, true] {
                 for &cy in sizes {
                     for early in [false, true] {
-                        for kind in 0..5 {
+                        for kind in 0..8 {
                             if kind == 4 && early {
                                 continue;
                             }
